@@ -251,7 +251,14 @@ def case_bands(B, cfg):
             rows.insert(2 * j, {'Time': d[0], 'Observable': NAN,
                                 'Value': NAN, 'Dose': d[1],
                                 'Duration': d[2]})
+    if cfg.get('nan_sample'):
+        # a sample without a value (not part of the samples of its time)
+        rows.append(dict(rows[-1], Time=times[0], Observable='A', Value=NAN))
     df = pd.DataFrame(rows, columns=cols)
+    if cfg.get('repeated_index'):
+        # index labels repeat, as in a frame concatenated block by block
+        # without ignore_index (what PosteriorPredictiveModel.sample returns)
+        df.index = [k % 2 for k in range(len(df))]
     snap = _snapshot(df)
     fig = getattr(chi.plots, cfg['figure'])()
     try:
@@ -374,6 +381,17 @@ def jobs(tier):
                 out.append(('bands', 'case_bands', dict(
                     figure=f, times=[1.0, 2.5][:len(n)], n_samples=n,
                     probs=probs), FACADE))
+        for extra in (dict(repeated_index=True),
+                      dict(repeated_index=True, nan_sample=True),
+                      dict(nan_sample=True)):
+            out.append(('bands', 'case_bands', dict(
+                figure=f, times=[1.0, 2.5], n_samples=[3, 2],
+                probs=[0.3, 0.0], distinct=True, **extra), FACADE))
+            out.append(('bands', 'case_bands', dict(
+                figure=f, times=[1.0], n_samples=[8],
+                probs=[0.9, 0.5, 0.2], ranks=[(7 * j + 3) % 8
+                                              for j in range(8)], **extra),
+                dict(FACADE, max_decisions=40000)))
         # time points that first appear in non-ascending order
         for times_, n in (([2.5, 1.0], [3, 2]), ([1.0, 4.0, 2.5], [2, 3, 2]),
                           ([4.0, 2.5, 1.0], [3, 1, 2])):
@@ -414,7 +432,8 @@ BOUNDS = dict(
           'bulk probabilities incl. 0 and 1: every weak ordering of the '
           'samples is a path; 5 pairwise distinct samples (every strict '
           'ordering); 8, 12 and 20 samples in 4 fixed strict orderings '
-          '(sorted, reversed, two scrambled) with 3 probabilities each',
+          '(sorted, reversed, two scrambled) with 3 probabilities each; '
+          'frames with repeated index labels and / or a sample without value',
     thorough='every pair of layouts; up to 5 samples with ties, 6-7 distinct '
              'in every strict ordering, 30 samples in 4 orderings',
     outside='residual plots and the other figure classes of chi.plots; '
